@@ -62,6 +62,8 @@ func init() {
 			{"reader-input-only", "whether a parsed element is kept depends on the element, not on other state of the document under construction (dependence slice of the branch conditions inside the reader's element cases)", ruleReaderInputOnly},
 			{"attr-presence", "where the reader keeps an element only for a non-empty attribute, no library code builds that element with the attribute empty (regions of attr != \"\" tests vs composite literals)", ruleAttrPresence},
 			{"part-prov", "parts (pictures included) are stored exactly as read from the archive on Open", rulePartProv},
+			{"fresh-dep/media", "pictures keep their bytes when more are added after a reopen: media names come from a counter restored from the existing names on Open", ruleMediaFresh},
+			{"counter-numeric", "the restored image counter is a numeric maximum, not a lexicographic one", ruleCounterNumeric},
 		},
 		Assumptions: append([]string{"encoding/xml marshals exactly the tagged fields", "reader functions are those statically reachable from (*Document).parseDocument"}, commonAssumptions...),
 	}
@@ -79,6 +81,7 @@ func init() {
 			{"part-prov", "parts are stored exactly as read from the archive on Open (no limiting/transforming reader)", rulePartProv},
 			{"counter-numeric", "the restored image counter is a numeric maximum, not a lexicographic one", ruleCounterNumeric},
 			{"rel-serialise-all", "the relationship parts written on save contain every relationship of the in-memory lists (collects-all analysis of the marshalled slice)", ruleRelSerialiseAll},
+			{"marshal-guard", "run text read from the package is written back whenever it is non-empty (custom marshalers test the field itself, not a trimmed copy)", ruleMarshalGuard},
 			{"reader-input-only", "whether parsed content is kept depends on the element read, not on other state of the document under construction", ruleReaderInputOnly},
 		},
 		Assumptions: commonAssumptions,
@@ -110,6 +113,7 @@ func init() {
 			{"iter-progress", "iterator loops are left when the advancing call fails without progress", ruleIterProgress},
 			{"grid-bound", "index and slice bounds on t.Grid.Cols follow from the dominating comparisons (difference-bound proof per use)", ruleGridBound},
 			{"marshal-attr-unique", "hand-written marshallers add no attribute that the encoded struct's tags emit as well (a re-saved main part stays well-formed)", ruleMarshalAttrUnique},
+			{"part-prov", "the regenerated main part of a re-saved document comes out of the escaping marshaller (no text spliced into the marshalled bytes)", filtered(rulePartProv, "word/document.xml", "serializeDocument")},
 		},
 		Assumptions: append([]string{"Decoder.Token returns an error at end of input and consumes input on every successful call"}, commonAssumptions...),
 	}
